@@ -903,7 +903,7 @@ func c01Histories(t *testing.T, out *vlib.Out, w *c01World, r *vlib.Rand) {
 		}
 	}
 	// 2. random histories
-	n := vlib.Budget(1500, 40000)
+	n := vlib.Budget(1500, 20000)
 	for i := 0; i < n; i++ {
 		tr := transportsAll[r.Intn(4)]
 		var cfg *c01Cfg
